@@ -108,6 +108,8 @@ def run(chk, tier, scale=1.0):
     opts = {"weights": {"timeout": 8, "hurry": 5, "reply": 22, "password": 14, "stray": 3}, "reply_kinds": ["OK", "OKacct", "NO", "AGAIN", "MORE", "junk", "OKspace"]}
     jobs = pcommon.hist_jobs(b, n, chk.seed, PROPS, opts=opts, tag="c02", want_class=False)
     prun.fold(chk, "C02", vcommon.pmap(prun.hist_worker, jobs, chunksize=4))
+    for rs in vcommon.pmap(pcommon.script_worker, pcommon.reload_jobs(b, chk.seed, PROPS, int((160 if tier == "quick" else 4000) * scale), tag="rls2")):
+        prun.fold(chk, "C02", rs)
     # real timers and id re-use (wall clock is used one-sidedly: an acceptance seen too EARLY is a violation, lateness never is)
     tjobs = [dict(build=b, seed=chk.seed * 50 + k, how=["disconnect", "registered", "refused", "replaced"][k % 4], gap=[0.8, 1.2, 1.5][k % 3])
              for k in range(8 if tier == "quick" else 48)]
